@@ -148,25 +148,7 @@ theorem angle4D_real_range (q1 q2 : Quat ℝ) (hne : q1 ≠ Gen.C10.Quat.neg q2)
   rw [abs_of_nonneg h1] at h2
   constructor <;> linarith
 
-/-- over ℝ, `sinx_over_x (angle4D q1 q2) ≠ 0` whenever `q1 ≠ -q2` (and `epsilon > 0`) -/
-theorem sinx_over_x_angle4D_ne_zero (teps : ℝ) (hteps : 0 < teps) (q1 q2 : Quat ℝ) (hne : q1 ≠ Gen.C10.Quat.neg q2) :
-    Gen.C10.sinx_over_x teps Real.sin (Gen.C10.Quat.angle4D Real.sqrt ratan2 q1 q2) ≠ 0 := by
-  obtain ⟨h0, hpi⟩ := angle4D_real_range q1 q2 hne
-  generalize Gen.C10.Quat.angle4D Real.sqrt ratan2 q1 q2 = a at h0 hpi
-  simp only [Gen.C10.sinx_over_x]
-  split_ifs with hc
-  · exact one_ne_zero
-  · have ha : a ≠ 0 := by
-      intro h; rw [h] at hc; simp at hc; linarith
-    have hap : 0 < a := lt_of_le_of_ne h0 (Ne.symm ha)
-    exact div_ne_zero (Real.sin_pos_of_pos_of_lt_pi hap hpi).ne' ha
-
 /-! ### 4-D dot product of linear combinations; `sinx_over_x` off its tiny branch; `cos (angle4D) = q1 ^ q2` -/
-
-/-- non-tiny branch of sinx_over_x -/
-theorem sinx_over_x_big {α : Type} [Field α] [LinearOrder α] [IsStrictOrderedRing α] (teps : α) (sin : α → α) (x : α)
-    (h : ¬ x * x < teps) : Gen.C10.sinx_over_x teps sin x = sin x / x := by
-  simp only [Gen.C10.sinx_over_x, h, ↓reduceIte]
 
 theorem dot4_lincomb_left {α : Type} [CommRing α] (k1 k2 : α) (q1 q2 p : Quat α) :
     Gen.C10.Quat.dot4 p (lincomb k1 q1 k2 q2) = k1 * Gen.C10.Quat.dot4 p q1 + k2 * Gen.C10.Quat.dot4 p q2 := by
